@@ -11,7 +11,8 @@ From OV.base Require Import Num.
 From OV.model Require Import M_C03.
 From OV.gen Require Import Tab_TriQuad Tab_FsGeom.
 From Coq Require Import Permutation.
-From OV.proofs Require Import L_C03sn L_C03cert L_C03tab L_C03lift L_C03int L_C03div.
+From OV.model Require Import M_C13_Edges.
+From OV.proofs Require Import L_C03sn L_C03cert L_C03tab L_C03lift L_C03int L_C03div L_C03_C13.
 Import ListNotations.
 Local Open Scope R_scope.
 
@@ -185,6 +186,23 @@ Theorem C03_divergence_mesh : forall k F1 f1x f1y l F2 f2x f2y (mesh : list tri)
   Permutation (flat_map tri_edges mesh) (bnd ++ flat_map both_ways inter) ->
   rsum (map (eflux F1 F2) bnd) = rsum (map (int_tri' (fun x => f1x x + f2y x)) mesh).
 Proof. exact divergence_mesh. Qed.
+(* composition with C13: for a consistently oriented manifold triangulation (no directed vertex pair twice, no degenerate
+   side) the premise above FOLLOWS from C13's theorems about the Mesh.create_edges model: the directed element sides are
+   the rows create_edges reports as boundary (no right element) plus the interior rows once in each direction; hence the
+   flux over exactly those boundary edges equals the sum of the element integrals of div F *)
+Theorem C03_faces_boundary_interior : forall conns, NoDup (all_faces conns) -> nondegenerate conns ->
+  Permutation (all_faces conns) (boundary_faces conns ++ flat_map both_dirs (interior_faces conns)).
+Proof. exact faces_boundary_interior. Qed.
+Theorem C03_divergence_mesh_create_edges : forall (X : nat -> R * R) k F1 f1x f1y l F2 f2x f2y conns,
+  NoDup (all_faces conns) -> nondegenerate conns ->
+  PolyG k F1 f1x f1y -> PolyG l F2 f2x f2y ->
+  rsum (map (eflux F1 F2) (map (xface X) (boundary_faces conns)))
+  = rsum (map (int_tri' (fun x => f1x x + f2y x)) (mesh_of X conns)).
+Proof. exact divergence_mesh_create_edges. Qed.
+Example C03_nonvacuous_two_triangles :
+  NoDup (all_faces ex_two_tris) /\ nondegenerate ex_two_tris
+  /\ boundary_faces ex_two_tris = [(0, 1); (3, 0); (1, 2); (2, 3)]%nat /\ interior_faces ex_two_tris = [(0, 2)]%nat.
+Proof. exact ex_two_tris_ok. Qed.
 (* the edge quadrature sum  sum_q w_q |t| F(X_q).n  of FunctionSpace.integrate_function_on_edge, at the exact edge points
    X_q = A + s_q t, equals the flux up to C * eps for a 1-D rule exact to degree d1 >= deg F *)
 Theorem C03_edge_flux_quadrature_partial : forall k F1 f1x f1y l F2 f2x f2y A B d1,
@@ -197,9 +215,10 @@ Proof. exact edge_flux_quadrature. Qed.
      - the implementation evaluates F at X_q = sum_a N_a(s_q) X_a; the certificates give |X_q - (A + s_q t)| <= eps |..|
        (RefIds1 with k = 1), but the propagation of that perturbation through F (a Lipschitz bound for F) is not proved:
        C03_edge_flux_quadrature_partial is stated at the exact edge points;
-     - the premise of C03_divergence_mesh (element edges = boundary edges + interior edges once in each direction) is a
-       property of Mesh.create_edges on a valid triangulation and belongs to C13.
-   Both are exercised on the implementation by L2 (boundary flux vs exact integral of div F on random meshes). *)
+   (The premise of C03_divergence_mesh is no longer assumed: C03_divergence_mesh_create_edges derives it from C13's
+   create_edges theorems; its two hypotheses -- no directed pair twice, no degenerate side -- are checked on every L2 mesh,
+   together with the decomposition itself on the implementation's create_edges output.)
+   The remaining gap is exercised on the implementation by L2 (boundary flux vs exact integral of div F on random meshes). *)
 
 (* non-vacuity: exact P1 data with the one-point rule satisfy the hypotheses; a concrete non-degenerate
    counter-clockwise triangle and a concrete degree-1 field exist *)
@@ -216,4 +235,4 @@ Print Assumptions C03_shapes_cert_sound.
 Print Assumptions C03_interpolation_and_gradient.
 Print Assumptions C03_mesh_area_ccw.
 Print Assumptions C03_axisymmetric.
-Print Assumptions C03_divergence_mesh.
+Print Assumptions C03_divergence_mesh_create_edges.
